@@ -33,6 +33,33 @@ var PumpKey = func(key string) string { return key }
 // PfxBFS explores from the roots (nil root = the empty input). maxStates caps the search
 // (reported as Capped, never silently).
 func PfxBFS(r *Run, roots [][]byte, visit Visit, maxStates int) PfxStats {
+	return PfxBFSDelta(r, roots, visit, maxStates, 0)
+}
+
+// Complete, when set, returns the shortest completion of an input to a full document (used by
+// the recovery exploration).
+var Complete func(w []byte) []byte
+
+// classReps has one representative byte per byte class.
+var classReps = func() []byte {
+	seen := map[byte]bool{}
+	var out []byte
+	for b := 0; b < 256; b++ {
+		c := ByteClass(byte(b))
+		if !seen[c] {
+			seen[c] = true
+			out = append(out, byte(b))
+		}
+	}
+	return out
+}()
+
+// PfxBFSDelta is PfxBFS with "recovery" exploration for code without liveness hooks: children
+// that are not expanded (dead according to the reference) are, one representative per byte class
+// of the last byte, extended by one more level — delta=1: by one representative per class,
+// delta=2: by all 256 bytes — so that an implementation that wrongly survives a forbidden byte
+// cannot hide behind the reference's sink state.
+func PfxBFSDelta(r *Run, roots [][]byte, visit Visit, maxStates int, delta int) PfxStats {
 	var st PfxStats
 	seen := map[string]struct{}{}
 	var queue [][]byte
@@ -60,11 +87,44 @@ func PfxBFS(r *Run, roots [][]byte, visit Visit, maxStates int) PfxStats {
 		}
 		child := make([]byte, len(w)+1)
 		copy(child, w)
+		var comp []byte
 		for b := 0; b < 256; b++ {
 			child[len(w)] = byte(b)
 			k, ex := visit(child)
 			st.Transitions++
 			if !ex {
+				if delta > 0 {
+					// recovery exploration past a child that is not expanded: continue it with
+					// the parent's shortest completion (an implementation that wrongly survived
+					// the byte now accepts), and with further bytes
+					if Complete != nil {
+						if comp == nil {
+							comp = Complete(w)
+							if comp == nil {
+								comp = []byte{}
+							}
+						}
+						if len(comp) > 0 {
+							visit(append(append([]byte(nil), child...), comp...))
+							st.Transitions++
+						}
+					}
+					gc := make([]byte, len(child)+1)
+					copy(gc, child)
+					if delta >= 2 {
+						for _, c := range classReps {
+							gc[len(child)] = c
+							visit(gc)
+							st.Transitions++
+						}
+					} else {
+						for _, c := range []byte{'"', '0', ' ', ']', '}'} {
+							gc[len(child)] = c
+							visit(gc)
+							st.Transitions++
+						}
+					}
+				}
 				continue
 			}
 			if k == wk {
@@ -187,3 +247,13 @@ func Pump(r *Run, loops []Loop, visit Visit, complete func([]byte) []byte, maxN,
 	}
 	return n
 }
+
+var repSet = func() map[byte]bool {
+	m := map[byte]bool{}
+	for _, b := range classReps {
+		m[b] = true
+	}
+	return m
+}()
+
+func isRep(b byte) bool { return repSet[b] }
